@@ -344,6 +344,10 @@ def run_history(seed, length, cplx=None, only=None):
                 continue
             if not consistent(t):
                 return 'result of %s has inconsistent order/dims/ranks/cores' % name, desc
+            if not np.any(dense(t.cores)):
+                # an exactly zero train (eye - eye, unit - unit, ...) is not kept in the pool: the zero tensor with a threshold
+                # is finding F14 (rank-0 cores), and LAPACK corrupts the heap on the empty arrays that follow
+                continue
             new_ids.append(h.add(t, kind))
         # 1. every live object other than the target keeps value and metadata
         for i, o in enumerate(h.pool):
